@@ -419,6 +419,11 @@ class Component( ComponentLevel7 ):
               parent._dsl.adjacency[other].remove( x )
           del parent._dsl.adjacency[x]
 
+      # Constants connected inside the removed components are keys of
+      # all_adjacency themselves; their entries point at removed signals.
+      for y in removed_consts:
+        top._dsl.all_adjacency.pop( y, None )
+
       for x in removed_components:
         del x._dsl.parent_obj
         del x._dsl.elaborate_top
